@@ -77,7 +77,7 @@ _SEAM_CLASS = {"open_r": "r", "read": "r", "stat": "r", "getcwd": "r", "open_w":
 
 
 class Inode:
-    __slots__ = ("ino", "kind", "data", "target", "entries", "nlink", "epoch", "dirty_from")
+    __slots__ = ("ino", "kind", "data", "target", "entries", "nlink", "epoch", "dirty_from", "mtime")
 
     def __init__(self, ino: int, kind: str):
         self.ino = ino
@@ -88,6 +88,7 @@ class Inode:
         self.nlink = 0
         self.epoch = 0  # power epoch in which the inode was created
         self.dirty_from = None  # (old_data) if modified since the last sync point
+        self.mtime = 0.0
 
 
 class SimStat:
@@ -104,8 +105,8 @@ class SimStat:
             "l": _stat.S_IFLNK | 0o777,
         }[node.kind]
         self.st_uid = self.st_gid = 1000
-        self.st_mtime = self.st_atime = self.st_ctime = 0.0
-        self.st_mtime_ns = self.st_atime_ns = self.st_ctime_ns = 0
+        self.st_mtime = self.st_atime = self.st_ctime = float(node.mtime)
+        self.st_mtime_ns = self.st_atime_ns = self.st_ctime_ns = int(node.mtime * 1e9)
 
 
 class SimFS:
@@ -113,6 +114,8 @@ class SimFS:
         self.inodes = {}
         self.next_ino = 2
         self.power_epoch = 0
+        self.clock = None  # callable -> virtual seconds (set by the world); files written later are newer
+        self._ticks = 0
         root = self._new("d")
         root.nlink = 1
         self.root = root.ino
@@ -129,9 +132,16 @@ class SimFS:
         self.probes = {}
 
     # ------------------------------------------------------------------ tree
+    def now(self) -> float:
+        """Virtual modification time: the simulated clock plus a strictly increasing tick."""
+        self._ticks += 1
+        base = self.clock() if self.clock is not None else 0.0
+        return base + self._ticks * 1e-3
+
     def _new(self, kind: str) -> Inode:
         node = Inode(self.next_ino, kind)
         node.epoch = self.power_epoch
+        node.mtime = self.now()
         self.inodes[node.ino] = node
         self.next_ino += 1
         return node
@@ -252,6 +262,7 @@ class SimFS:
         if node.kind != "f":
             raise HarnessError("h_write: not a regular file: " + path)
         node.data = data
+        node.mtime = self.now()
         node.dirty_from = None  # harness writes are durable
 
     def h_read(self, path: str) -> bytes:
@@ -466,7 +477,17 @@ class SimFS:
     # ------------------------------------------------------------- seam API
     def open(self, file, mode="r", buffering=-1, encoding=None, errors=None, newline=None, closefd=True, opener=None):
         if isinstance(file, int):
-            raise HarnessError("SimFS.open on a file descriptor")
+            if file >= self.FD_BASE:
+                return self.fdopen(file, mode, buffering, encoding, errors, newline)
+            return _REAL_OPEN(file, mode, buffering, encoding, errors, newline, closefd, opener)
+        if opener is not None and not self.is_real(file):
+            import os as _o
+
+            fl = _o.O_RDONLY if "r" in mode and "+" not in mode else (_o.O_WRONLY | _o.O_CREAT | (_o.O_TRUNC if "w" in mode else 0) | (_o.O_APPEND if "a" in mode else 0) | (_o.O_EXCL if "x" in mode else 0))
+            fd = opener(file, fl)
+            if isinstance(fd, int) and fd >= self.FD_BASE:
+                return self.fdopen(fd, mode, buffering, encoding, errors, newline)
+            return _REAL_OPEN(fd, mode, buffering, encoding, errors, newline, closefd)
         if self.is_real(file):
             if any(c in mode for c in "wax+"):
                 raise HarnessError("write to real path %r from inside the simulation" % (file,))
@@ -485,7 +506,7 @@ class SimFS:
             sf = SimFile(self, node, path, "r", binary, encoding, errors)
             self.open_files.append(sf)
             return sf
-        if m in ("w", "a", "x", "+w", "+a", "+r"):
+        if m in ("w", "a", "x", "+w", "+a", "+r", "+x"):
             if "+" in m:
                 raise HarnessError("SimFS.open: update mode %r not modelled" % mode)
             self._seam("open_w", path)
@@ -519,6 +540,7 @@ class SimFS:
                 if node.dirty_from is None:
                     node.dirty_from = node.data
                 node.data = b""  # O_TRUNC takes effect at open
+                node.mtime = self.now()
             sf = SimFile(self, node, path, "w", binary, encoding, errors)
             self.open_files.append(sf)
             return sf
@@ -634,12 +656,165 @@ class SimFS:
         del sp.entries[sn]
         dp.entries[dn] = ino
 
+    # ---------------------------------------------------- low-level descriptors
+    FD_BASE = 1000
+
+    def os_open(self, path, flags, mode=0o777, *, dir_fd=None):
+        import os as _o
+
+        p = _real_os.fspath(path)
+        if isinstance(p, bytes):
+            p = p.decode("utf-8", "surrogateescape")
+        acc = flags & (_o.O_WRONLY | _o.O_RDWR)
+        if acc == 0:
+            sf = self.open(p, "rb")
+        else:
+            exists = True
+            try:
+                self._walk(p)
+            except OSError:
+                exists = False
+            if exists and (flags & _o.O_CREAT) and (flags & _o.O_EXCL):
+                self._seam("open_w", p)
+                raise oserr(errno.EEXIST, p)
+            if not exists and not (flags & _o.O_CREAT):
+                self._seam("open_w", p)
+                raise oserr(errno.ENOENT, p)
+            m = "wb" if (flags & _o.O_TRUNC) or not exists else "ab"
+            sf = self.open(p, m)
+        if not hasattr(self, "fds"):
+            self.fds = {}
+        fd = self.FD_BASE + len(self.fds) + sum(1 for _ in ())
+        while fd in self.fds:
+            fd += 1
+        self.fds[fd] = sf
+        return fd
+
+    def _fd(self, fd):
+        sf = getattr(self, "fds", {}).get(fd)
+        if sf is None:
+            raise oserr(errno.EBADF)
+        return sf
+
+    def os_write(self, fd, data):
+        sf = self._fd(fd)
+        sf.write(bytes(data))
+        sf.flush()  # a write(2) goes to the page cache at once
+        return len(data)
+
+    def os_read(self, fd, n):
+        return self._fd(fd).read(n)
+
+    def os_close(self, fd):
+        sf = self._fd(fd)
+        del self.fds[fd]
+        sf.close()
+
+    def os_fsync(self, fd):
+        sf = self._fd(fd) if isinstance(fd, int) else fd
+        sf.flush()
+        sf.node.dirty_from = None  # durable from here on
+
+    def os_fstat(self, fd):
+        return SimStat(self._fd(fd).node)
+
+    def fdopen(self, fd, mode="r", buffering=-1, encoding=None, errors=None, newline=None, closefd=True, opener=None):
+        sf = self._fd(fd)
+        del self.fds[fd]
+        sf.binary = "b" in mode
+        sf.encoding = encoding or "utf-8"
+        sf.errors = errors or "strict"
+        return sf
+
+    def utime(self, path, times=None, *, ns=None, dir_fd=None, follow_symlinks=True):
+        p = _real_os.fspath(path)
+        self._seam("open_w", p)
+        node = self._walk(p, follow_last=follow_symlinks)
+        if times is not None:
+            node.mtime = float(times[1])
+        elif ns is not None:
+            node.mtime = ns[1] / 1e9
+        else:
+            node.mtime = self.now()
+
+    def scandir(self, path="."):
+        p = _real_os.fspath(path)
+        if self.is_real(p):
+            return _real_os.scandir(p)
+        self._seam("stat", p)
+        node = self._walk(p)
+        if node.kind != "d":
+            raise oserr(errno.ENOTDIR, p)
+        fs = self
+        entries = [SimDirEntry(fs, p, name, fs.inodes[ino]) for name, ino in sorted(node.entries.items())]
+
+        class _It:
+            def __init__(self_):
+                self_._it = iter(entries)
+
+            def __iter__(self_):
+                return self_
+
+            def __next__(self_):
+                return next(self_._it)
+
+            def __enter__(self_):
+                return self_
+
+            def __exit__(self_, *a):
+                return False
+
+            def close(self_):
+                pass
+
+        return _It()
+
     def access(self, path, mode, *, dir_fd=None, effective_ids=False, follow_symlinks=True) -> bool:
         try:
             self.stat(path, follow_symlinks=follow_symlinks)
             return True
         except OSError:
             return False
+
+
+class SimDirEntry:
+    def __init__(self, fs, parent, name, node):
+        self._fs, self.name, self._node = fs, name, node
+        self.path = name if parent in (".", "") else parent.rstrip("/") + "/" + name
+
+    def inode(self):
+        return self._node.ino
+
+    def _target(self, follow):
+        if self._node.kind == "l" and follow:
+            try:
+                return self._fs._walk(self.path)
+            except OSError:
+                return None
+        return self._node
+
+    def is_dir(self, *, follow_symlinks=True):
+        n = self._target(follow_symlinks)
+        return n is not None and n.kind == "d"
+
+    def is_file(self, *, follow_symlinks=True):
+        n = self._target(follow_symlinks)
+        return n is not None and n.kind == "f"
+
+    def is_symlink(self):
+        return self._node.kind == "l"
+
+    def stat(self, *, follow_symlinks=True):
+        n = self._target(follow_symlinks)
+        if n is None:
+            raise oserr(errno.ENOENT, self.path)
+        return SimStat(n)
+
+    def __fspath__(self):
+        return self.path
+
+    def __repr__(self):
+        return "<SimDirEntry %r>" % self.name
 
 
 class SimFile:
@@ -768,6 +943,7 @@ class SimFile:
         # CPython: pending text above the chunk size is flushed through completely
         if len(self._buf) > BUFSZ:
             self.node.data += self._buf
+            self.node.mtime = self.fs.now()
             self._buf = b""
         return len(s)
 
@@ -797,7 +973,9 @@ class SimFile:
                 raise
             if self._dead:
                 return
-            self.node.data += self._buf
+            if self._buf:
+                self.node.data += self._buf
+                self.node.mtime = self.fs.now()
             self._buf = b""
         self.closed = True
         if self in self.fs.open_files:
